@@ -8,6 +8,7 @@ KINDS = {
     "map_tag": {"t": "map", "fn": "tag"}, "map_raise": {"t": "map", "fn": "raise"},
     "map_efn_tag": {"t": "map", "efn": "tag"}, "map_efn_raise": {"t": "map", "efn": "raise"},
     "map_efn_reraise": {"t": "map", "efn": "reraise"}, "map_both": {"t": "map", "fn": "tag", "efn": "tag"},
+    "map_fn_none": {"t": "map", "fn": "none"}, "map_efn_none": {"t": "map", "efn": "none"},
     "flat_tag": {"t": "flat_map", "fn": "tag"}, "flat_later": {"t": "flat_map", "fn": "later"},
     "flat_nonfuture": {"t": "flat_map", "fn": "nonfuture"}, "flat_none": {"t": "flat_map"},
     "flat_efn_fail": {"t": "flat_map", "efn": "fail_future"},
